@@ -406,9 +406,98 @@ def install_rpms():
     wrap(R.Rpms, "__delitem__", _rpms_del)
     wrap(R.Rpms, "deserialize", _rpms_deserialize)
 
+# ------------------------------------------------------------------ modules / extra files (C12)
+# Raw arguments and a snapshot of the whole (small) mapping after the call; abstraction in harness/builders_traces.py.
+
+def _snap(x):
+    return json.loads(json.dumps(x, default=repr))
+
+
+def _mod_add(orig, self, a, kw):
+    names = ("variant", "arch", "uid", "koji_tag", "modulemd_path", "category", "rpms")
+    args = dict(zip(names, a))
+    args.update(kw)
+    out, res, exc = call(orig, self, a, kw)
+    rl = args.get("rpms")
+    logged = {k: (args.get(k) if isinstance(args.get(k), str) else repr(args.get(k))) for k in names[:-1]}
+    for k in names[:-1]:
+        if not isinstance(args.get(k), str):
+            logged[k] = {"repr": repr(args.get(k))}          # not text: the abstraction stops here
+    logged["rpms_is_seq"] = isinstance(rl, (list, tuple))
+    logged["rpms"] = _snap(list(rl)) if isinstance(rl, (list, tuple)) else repr(rl)
+    try:
+        state = _snap(self.modules)
+    except Exception:
+        state = None
+    emit(self, "builders", {"op": "modadd", "out": out, "args": logged, "state": state})
+    if exc is not None:
+        raise exc
+    return res
+
+
+def _xf_add(orig, self, a, kw):
+    names = ("variant", "arch", "path", "size", "checksums")
+    args = dict(zip(names, a))
+    args.update(kw)
+    out, res, exc = call(orig, self, a, kw)
+    logged = {k: (args.get(k) if isinstance(args.get(k), str) else {"repr": repr(args.get(k))}) for k in names[:3]}
+    logged["size"] = _snap(args.get("size"))
+    logged["checksums_is_dict"] = isinstance(args.get("checksums"), dict)
+    logged["checksums"] = _snap(args.get("checksums"))
+    try:
+        state = _snap(self.extra_files)
+    except Exception:
+        state = None
+    emit(self, "builders", {"op": "xfadd", "out": out, "args": logged, "state": state})
+    if exc is not None:
+        raise exc
+    return res
+
+
+def _xf_treedump(orig, self, a, kw):
+    import io
+    names = ("output", "variant", "arch", "basepath")
+    args = dict(zip(names, a))
+    args.update(kw)
+    real_out = args.get("output")
+    buf = io.StringIO()
+    a2 = (buf,) + tuple(a[1:]) if a else a
+    kw2 = dict(kw)
+    if "output" in kw2:
+        kw2["output"] = buf
+    out, res, exc = call(orig, self, a2, kw2)
+    text = buf.getvalue()
+    if real_out is not None and text:
+        real_out.write(text)                       # the caller's file object gets exactly what the library wrote
+    listed = None
+    if out == "ok":
+        try:
+            listed = json.loads(text)["data"]
+        except Exception:
+            out = "unreadable output"
+    try:
+        state = _snap(self.extra_files)
+    except Exception:
+        state = None
+    emit(self, "builders", {"op": "treedump", "out": out, "listed": listed, "state": state,
+                            "args": {"variant": args.get("variant") if isinstance(args.get("variant"), str) else {"repr": repr(args.get("variant"))},
+                                     "arch": args.get("arch") if isinstance(args.get("arch"), str) else {"repr": repr(args.get("arch"))},
+                                     "base": args.get("basepath") if isinstance(args.get("basepath"), str) else {"repr": repr(args.get("basepath"))}}})
+    if exc is not None:
+        raise exc
+    return res
+
+
+def install_builders():
+    import productmd.modules as M
+    import productmd.extra_files as X
+    wrap(M.Modules, "add", _mod_add)
+    wrap(X.ExtraFiles, "add", _xf_add)
+    wrap(X.ExtraFiles, "dump_for_tree", _xf_treedump)
+
 # ------------------------------------------------------------------ install / flush
 
-INSTALLERS = [install_images, install_forest, install_dump, install_rpms]
+INSTALLERS = [install_images, install_forest, install_dump, install_rpms, install_builders]
 
 
 def install():
